@@ -590,6 +590,35 @@ def r06_3(ctx):
                 out.ok(ff.qname, f"{kind}: all {n} cyclic junctions share one point object", where=ff.where())
         else:
             out.ok(ff.qname, f"{kind}: rejected", where=ff.where())
+    # from_ctrlpoints on lists of control points, through the repository's from_segments: a chain with a gap is rejected
+    # like the same chain given as segments, a closed one comes out as a curve
+    fc = ctx.fn("jordancurve.JordanCurve.from_ctrlpoints")
+    for kind, must_raise in (("closed-shared", False), ("equal-not-shared", False), ("gap-middle", True), ("gap-wrap", True)):
+        lists = [list(sg.ctrlpoints) for sg in chain(kind)]
+
+        def hook2(rn, ev, call, name, recv, args, kwargs):
+            if name == "from_segments" and len(args) == 1:
+                return rn.call_fn(ff, [args[0]])
+            if name == "isinstance" and len(args) == 2 and isinstance(args[0], (list, tuple, str)) and isinstance(args[1], type):
+                return isinstance(args[0], args[1])
+            if (name == "cls" or (isinstance(recv, Obj) and str(recv).startswith("cls:"))) and isinstance(call.func, ast.Name):
+                return "CURVE"
+            return setter_hook(rn, ev, call, name, recv, args, kwargs)
+        try:
+            got = Runner(ctx, set(), hook2, asserts=True).call_fn(fc, [lists])
+            raised = False
+        except Raised:
+            raised = True
+        except Undecided as ex:
+            out.undecided(fc.qname, f"{kind}: not interpretable: {ex}", where=fc.where())
+            continue
+        if raised != must_raise:
+            out.bad(fc.qname, f"from_ctrlpoints {'rejects a closed chain' if raised else 'accepts an open chain'} ({kind})",
+                    where=fc.where(), detail="control-point lists of three segments; from_segments rejects the same chain")
+        elif not must_raise and got != "CURVE":
+            out.bad(fc.qname, f"{kind}: does not return the curve built by from_segments", where=fc.where())
+        else:
+            out.ok(fc.qname, f"control-point lists, {kind}: {'rejected' if must_raise else 'a curve'}", where=fc.where())
     for name in ("from_vertices", "from_ctrlpoints", "from_full_curve"):
         f2 = ctx.fn(f"jordancurve.JordanCurve.{name}")
         inf = ctx.typer.of(f2)
